@@ -335,6 +335,12 @@ def vc_upsert(prog, ecls='BaseMatching', n_layers=1, obs_ne=0):
                 and (not wr or wr[-1][1] is old))))
             g.append(('upsert:present-refiling-only-for-a-stopped-entry-that-became-live',
                       z3.Implies(b2z(bool(wr)), z3.And(old0['stop'], z3.Not(b2z(old.f['stop']))))))
+            # C19: a stopped entry exists only under debug; once a live candidate takes it over it must sit where a newly
+            # inserted entry would sit (the iteration order of the layer decides between exactly equal alternatives)
+            DEL = __import__('pyvc.interp', fromlist=['DELETED']).DELETED
+            refiled = bool(wr) and len(wr) >= 2 and wr[-2][1] is DEL and wr[-1][1] is old
+            g.append(('debug:placeholder-turned-live-is-ordered-like-a-new-entry',
+                      z3.Implies(z3.And(old0['stop'], z3.Not(b2z(old.f['stop']))), b2z(refiled))))
             g.append(('upsert:present-keeps-better-score', old.f['logprob'] == z3.If(better, c0['logprob'], old0['logprob'])))
             g.append(('upsert:present-keeps-better-predecessor', b2z(len(old.f['prev'].elems) == 1) if isinstance(old.f['prev'], SetVal) else z3.BoolVal(False)))
         else:
